@@ -117,7 +117,8 @@ def gen_case(rng, tier, kind=None, N=None, nc=None):
                 "it": tail(rng, 1, 3, [6], 0.03),
                 "rf": rng.choice([4.0, 1.0, 10.0]), "rs": rng.randint(0, 1000),
                 "dim_t": tail(rng, 1, 3, [5, 9, 17], 0.05), "update_sigma": rng.random() < 0.6,
-                "floor": rng.choice([1e-10, 1e-3 * scale * scale])},
+                "floor": rng.choice([1e-10, 1e-3 * scale * scale]),
+                "conv_thr": rng.choice([None, None, 1e-9, 1e-3, 0.5])},
         "np_seed": rng.randint(0, 2 ** 31 - 1),
         # a long-lived machine object: used (enrolment) or trained before this training
         "pre": rng.choice([None, None, None, "enroll", "fit"]),
@@ -242,7 +243,8 @@ def _make(case):
         return JFAMachine(cfg["rU"], cfg["rV"], em_iterations=cfg["it"],
                           relevance_factor=cfg["rf"], random_state=cfg["rs"], ubm=ubm)
     return IVectorMachine(ubm, dim_t=cfg["dim_t"], max_iterations=cfg["it"],
-                          update_sigma=cfg["update_sigma"], variance_floor=cfg["floor"])
+                          update_sigma=cfg["update_sigma"], variance_floor=cfg["floor"],
+                          convergence_threshold=cfg.get("conv_thr"))
 
 
 def _params(kind, m):
